@@ -86,6 +86,12 @@ fn one(out: &mut Out, origin: &str, text: &str, d: &mut Ddnnf, tt: Option<&TT>, 
             out.circuit(&export_nodes(&r), &circuit_line(&r));
             if let Some(tt) = tt { if n <= 10 { out.query("tt", "", &tt.to_string01()); } }
             if r.number_of_variables != n { out.fail("reload-feature-count", text, "reload", &r.number_of_variables.to_string(), &n.to_string()); }
+            // a `-t n` kept from the original d4 input must not change what the saved file denotes
+            let lines2 = saved.lines().map(|l| l.to_string()).collect::<Vec<_>>();
+            match guarded(move || ddnnife::parser::distribute_building(lines2, Some(n), None)) {
+                Err(e) => out.fail("reload-panic", text, "load the saved file with -t n", &format!("panic: {e}"), "a model"),
+                Ok(r2) => if export_flat(&r2) != export_flat(&r) { out.fail("reload-with-total-features-differs", text, &format!("load the saved file with -t {n} ({origin})"), &export_flat(&r2), &export_flat(&r)); },
+            }
             let (b1, b2) = (guarded(|| battery(d, n, seed)), guarded(|| battery(&mut r, n, seed)));
             match (b1, b2) {
                 (Ok(b1), Ok(b2)) => { if let Some(i) = (0..b1.len().min(b2.len())).find(|&i| b1[i] != b2[i]) { out.fail("reload-answer-differs", text, &format!("query #{i} of the battery after save/reload ({origin})"), &b2[i], &b1[i]); } }
